@@ -107,6 +107,7 @@ def abstract_part(part):
     q = qd[0][1]
     pts = part._points
     first = int(pts[0].t)
+    off_grid = [float(tp.t) for tp in pts if float(tp.t) != int(tp.t)]
     ts = [(int(x.start.t), int(x.beats), int(x.beat_type)) for x in _objects(part, S.TimeSignature)]
     ks = [(int(x.start.t), int(x.fifths), mode_norm(x.mode)) for x in _objects(part, S.KeySignature)]
     measures = sorted((int(m.start.t), int(m.end.t) if m.end is not None else None) for m in _objects(part, S.Measure))
@@ -154,7 +155,7 @@ def abstract_part(part):
         return bm.beat(measures[i][0]) if i is not None else bm.beat(t)
 
     return {
-        "q": q, "first": first, "last": int(pts[-1].t), "notes": notes, "dup_ids": sorted(dup_ids),
+        "q": q, "first": first, "last": int(pts[-1].t), "notes": notes, "dup_ids": sorted(dup_ids), "off_grid": off_grid,
         "measures": measures, "measure_beats": mbeats, "measure_of": measure_of, "bm": bm, "pickup": bm.pickup,
         "ts": [(bar_start_beat(s), v, s) for s, v in ts_eff],
         "ks": [(bar_start_beat(s), v, s) for s, v in ks_eff],
